@@ -566,7 +566,7 @@ void ScriptVariable::ArchiveInternal(Archiver& arc)
     case variableType_e::String:
         if (arc.Loading())
         {
-            m_data.stringValue = new str(4);
+            m_data.stringValue = new str();
         }
 
         ::Archive(arc, *m_data.stringValue);
